@@ -4,6 +4,7 @@ import MindsVerif.Lemmas.ErrSuggest
 import MindsVerif.Lemmas.ErrPrefix
 import MindsVerif.Lemmas.ErrDet
 import MindsVerif.Lemmas.ErrKeys
+import MindsVerif.Lemmas.ErrLine
 import MindsVerif.Gen.Keys_mindsdb
 import MindsVerif.Props.C05
 import MindsVerif.Gen.ErrLex
@@ -41,6 +42,13 @@ the GRAMMAR cannot continue; every suggestion can be continued to a sentence aft
   Not proved: completability of `toks[:k] ++ [ty]` to a sentence, that the display value lexes to `ty`,
   and the "substitute" half (the code replaces the token BEFORE the bad one: `C19_witness_replace_previous`).
 * `C19_lexer_caret` — `MindsDBLexer.error` line / column arithmetic.
+* round 5, the lexer-error path over TEXTS (any characters, in particular every line-separator character of
+  `str.splitlines`; lines are the `'\n'`-separated pieces as in the code): `C19_full_lexer_caret_holds`
+  (`C19_lexer_caret_text`, `C19_lexer_line_unique`): the complete `LexError` message is the header naming the
+  offending character, at most one context line (the previous piece), the piece that contains the offending
+  offset, and a caret at the column of that offset in it.  `C19_partial_r5` = `C19_partial` + this clause.
+  `C19_regress_splitlines_*`: the same loop over `str.splitlines()` misplaces the caret / echoes the wrong line
+  (CRLF, a separator as the offending character).  Which offset the lexer reports is an input (lexer not modelled).
 * Φ19 data: `C19_key_classification`, `C19_shift_key_extends`, `C19_key_totals_mindsdb` (translation
   cross-check of the generated tables).
 * History / necessity of hypotheses (about the OLD one-piece variant `errorLocation`, reachable only through
@@ -891,5 +899,106 @@ example : msg [tk 0 "select" 1 2, tk 1 "a" 2 13, tk 1 "b" 2 15, tk 1 "c" 2 17] (
     ["Syntax error, unknown input:", ">  select", ">     a b c", "----------^"] := by decide
 example : msg [tk 0 "select" 1 2, tk 1 "a" 2 13] none =
     ["Syntax error, unexpected end of query:", ">  select", ">     a", "-------^"] := by decide
+
+/-! ### round 5 — the lexer-error path (`MindsDBLexer.error`) over texts, every line-separator convention -/
+
+/-- **T19.4b**: read the text in ANY way as `'\n'`-free lines `pre`, `line`, `post` joined by `'\n'`; for an
+offending offset at column `col` of `line` the report shows the previous line (if there is one), then `line`,
+then `col + 1` dashes and the caret.  No hypothesis on the characters: `'\r'`, form feed, U+2028 … are ordinary
+characters of a line (the code splits on `'\n'` only and advances by `len(line) + 1`). -/
+theorem C19_lexer_caret_text (pre post : List (List Char)) (line : List Char) (col : Nat)
+    (hnl : ∀ l ∈ pre ++ line :: post, '\n' ∉ l) (hc : col < line.length) :
+    lexError (termLines pre ++ line ++ sepLines post) ((termLines pre).length + col) =
+      (pre.drop (pre.length - 1)).map (fun l => '>' :: l) ++
+        ['>' :: line, List.replicate (col + 1) '-' ++ ['^']] := by
+  unfold lexError
+  rw [splitLines_of_pieces pre line post hnl, termLines_length]
+  obtain ⟨ctx, _, hctx, h⟩ := C19_lexer_caret pre post line col hc
+  rw [h, hctx]
+
+/-- the line of an offset is well defined: two readings of the same text as `'\n'`-free lines that both put
+the offset inside their middle line are the same reading -/
+theorem C19_lexer_line_unique (pre post pre' post' : List (List Char)) (line line' : List Char) (col col' : Nat)
+    (hnl : ∀ l ∈ pre ++ line :: post, '\n' ∉ l) (hnl' : ∀ l ∈ pre' ++ line' :: post', '\n' ∉ l)
+    (ht : termLines pre ++ line ++ sepLines post = termLines pre' ++ line' ++ sepLines post')
+    (hc : col < line.length) (hc' : col' < line'.length)
+    (hi : (termLines pre).length + col = (termLines pre').length + col') :
+    pre = pre' ∧ line = line' ∧ post = post' ∧ col = col' := by
+  have hs : pre ++ line :: post = pre' ++ line' :: post' := by
+    rw [← splitLines_of_pieces pre line post hnl, ← splitLines_of_pieces pre' line' post' hnl', ht]
+  rw [termLines_length, termLines_length] at hi
+  have hpre : pre = pre' := offs_locate_unique pre pre' line line' post post' col col' hs hi hc hc'
+  subst hpre
+  have := List.append_cancel_left hs
+  simp only [List.cons.injEq] at this
+  exact ⟨rfl, this.1, this.2, by omega⟩
+
+/-- **Full statement, lexer errors**: for every text and every offset holding a character other than `'\n'`
+(the rule `ignore_newline` consumes every `'\n'`, so it is never the offending character), the text IS
+`pre` (each line followed by its `'\n'`) ++ `line` ++ `post` (each preceded by its `'\n'`) with `'\n'`-free
+lines, the offset lies at column `col` of `line`, `line[col]` is the offending character, and the whole
+`LexError` message is: header with the `repr` of that character, the previous line if any, `line`, and
+`col + 1` dashes followed by `^`. -/
+def C19_full_lexer_caret : Prop :=
+  ∀ (text : List Char) (index : Nat) (c : Char), text[index]? = some c → c ≠ '\n' →
+    ∃ (pre : List (List Char)) (line : List Char) (post : List (List Char)) (col : Nat),
+      text = termLines pre ++ line ++ sepLines post ∧ (∀ l ∈ pre ++ line :: post, '\n' ∉ l) ∧
+      (termLines pre).length + col = index ∧ line[col]? = some c ∧
+      lexErrorMsg text index = joinWith ['\n'] (lexHeader c ::
+        ((pre.drop (pre.length - 1)).map (fun l => '>' :: l) ++
+          ['>' :: line, List.replicate (col + 1) '-' ++ ['^']]))
+
+theorem C19_full_lexer_caret_holds : C19_full_lexer_caret := by
+  intro text index c hc hne
+  obtain ⟨pre, line, post, col, h1, h2, h3⟩ := splitLines_locate text index c hc hne
+  have hnl : ∀ l ∈ pre ++ line :: post, '\n' ∉ l := by rw [← h1]; exact splitLines_mem_no_nl text
+  have ht := splitLines_text text pre line post h1
+  have hcol : col < line.length := by
+    rcases Nat.lt_or_ge col line.length with h | h
+    · exact h
+    · rw [List.getElem?_eq_none h] at h3; cases h3
+  refine ⟨pre, line, post, col, ht, hnl, by rw [termLines_length]; exact h2, h3, ?_⟩
+  unfold lexErrorMsg
+  rw [hc]
+  have := C19_lexer_caret_text pre post line col hnl hcol
+  rw [← ht, termLines_length, h2] at this
+  rw [this]
+
+/-- the proved part of the statement extended by the lexer-error clause -/
+theorem C19_partial_r5 (T : Tables) (hv : T.valid = true) (nT : Nat) :
+    (C19_full_caret ∧ C19_parser_bad_token T ∧ C19_parser_suggestion T nT) ∧ C19_full_lexer_caret :=
+  ⟨C19_partial T hv nT, C19_full_lexer_caret_holds⟩
+
+/-- non-vacuity / reading of the statement on CRLF, CR-only and form-feed texts (messages as the real
+`parse_sql` gives them) -/
+example : String.ofList (lexErrorMsg "select a,\r\n  b # c\r\nfrom t".toList 15) =
+    "Illegal character '#':\n>select a,\r\n>  b # c\r\n-----^" := by decide
+example : String.ofList (lexErrorMsg "select a\rfrom t #".toList 16) =
+    "Illegal character '#':\n>select a\rfrom t #\n-----------------^" := by decide
+example : String.ofList (lexErrorMsg "select a\x0cfrom t".toList 8) =
+    "Illegal character '\\x0c':\n>select a\x0cfrom t\n---------^" := by decide
+
+/-- REGRESSION (seeded change, round 5): the same loop over `str.splitlines()` with the offset still advanced by
+`len(line) + 1`.  After one CRLF the caret stands one column too far right … -/
+theorem C19_regress_splitlines_crlf :
+    (lexErrorSL "select a,\r\n  b # c\r\nfrom t".toList 15).map String.ofList =
+      [">select a,", ">  b # c", "------^"] ∧
+    (lexError "select a,\r\n  b # c\r\nfrom t".toList 15).map String.ofList =
+      [">select a,\r", ">  b # c\r", "-----^"] := by decide
+/-- … after two CRLFs with the character at the end of its line no line matches: the FIRST line is echoed … -/
+theorem C19_regress_splitlines_wrong_line :
+    (lexErrorSL "select a\r\nfrom t\r\nwhere a = 1 #".toList 30).map String.ofList = [">select a", "-^"] ∧
+    (lexError "select a\r\nfrom t\r\nwhere a = 1 #".toList 30).map String.ofList =
+      [">from t\r", ">where a = 1 #", "-------------^"] := by decide
+/-- … and a separator that is itself the offending character (form feed) is on no line at all -/
+theorem C19_regress_splitlines_separator_char :
+    (lexErrorSL "select a\x0cfrom t".toList 8).map String.ofList = [">select a", "-^"] ∧
+    (lexError "select a\x0cfrom t".toList 8).map String.ofList = [">select a\x0cfrom t", "---------^"] := by decide
+
+/-- pins of what the text-level model assumes about the live `MindsDBLexer.error` (behavioural flags of the
+extractor): it breaks echoed lines at `'\n'` only, and on two-line probe texts over every separator sequence
+the caret column holds the offending character -/
+example : ErrLex.lexLineSeps = [10] := by decide
+example : ErrLex.lexCaretOnChar = true := by decide
 
 end MindsVerif.Props.C19
